@@ -85,6 +85,8 @@ def peers_prop(line, impl, model):
                 return "pop-closed|Pop returned peer %d which had closed before Pop was called (%s)" % (pid, where)
             if op == "p" and end_returned:
                 return "pop-after-end|Pop returned a peer after End had returned (%s)" % where
+        if op in ("p", "pw") and t == "blocked" and end_returned:
+            return "pop-blocked-after-end|Pop did not return although End had returned (%s)" % where
         if t.startswith("n="):
             if int(t[2:]) > maxp:
                 return "over-capacity|Count() = %s exceeds the maximum %d (%s)" % (t[2:], maxp, where)
@@ -303,7 +305,15 @@ def run(ctx):
         "failures of CreateDataChannel/CreateOffer/SetLocalDescription are covered by the theorem but cannot be provoked from outside pion, so the correspondence does not exercise them",
     ]
     lines, kinds = gen_peers(ctx)
-    ctx.correspond(exe, lines, kinds, label="peers", prop=prop, key_of=key_of, impl_args=TEST_ARGS)
+    # directed scenarios first; if they already fail, the bulk is cut short (a defect that makes calls
+    # block costs one watchdog period per op, which would otherwise take very long)
+    nd = sum(1 for k in kinds if k.startswith("directed"))
+    ctx.correspond(exe, lines[:nd], kinds[:nd], label="peers-directed", prop=prop, key_of=key_of, impl_args=TEST_ARGS, crosscheck=10)
+    rest_l, rest_k = lines[nd:], kinds[nd:]
+    if ctx.violations:
+        rest_l, rest_k = rest_l[:300], rest_k[:300]
+        ctx.extra["bulk_cut_short_after_directed_failures"] = True
+    ctx.correspond(exe, rest_l, rest_k, label="peers", prop=prop, key_of=key_of, impl_args=TEST_ARGS)
     c_lines, c_kinds = gen_connect(ctx)
     ctx.correspond(exe, c_lines, c_kinds, label="connect", prop=prop, key_of=key_of, impl_args=TEST_ARGS, crosscheck=20)
     # keep the replay file readable: at most 3 failing inputs per key, shortest first
